@@ -58,7 +58,7 @@ def gen(ctx, rng):
         nd = -3000.0
         cube[rng.random(cube.shape) < 0.1] = nd
         a = dict(op="whitsvc", cube=cube.tolist(), nodata=nd, order=[("time", "y", "x"), ("y", "x", "time")][k % 2],
-                 name=[None, "ndvi"][k % 2])
+                 name=[None, "ndvi"][k % 2], attr_nodata=[None, -9999, 0][k % 3])
         if k % 3 == 0:
             a["lc"] = [[0.9, 0.5, None], [0.2, 0.5000001, -0.3]]
             a["lc_order"] = ["x", "y"] if k % 2 == 0 else None      # matched to the cube by name, not by position
@@ -80,6 +80,16 @@ def gen(ctx, rng):
                     c["llas"] = a["srange"]
                 pcs.append(c)
         a["pixel_cases"] = pcs
+        acc.append(a)
+    # whitsvc with float64 lag-1 correlations within a float32 rounding of the 0.5 threshold, on white-noise pixels (whose optimum lies
+    # at the low end of the -2..1 grid, outside the 0..3 grid): the grid is chosen by lc > 0.5 on the value that was passed
+    for k in range(2 if ctx.thorough else 1):
+        T = int(rng.integers(30, 60))
+        cube = np.round(rng.normal(3000, 900, size=(2, 3, T)))
+        a = dict(op="whitsvc", cube=cube.tolist(), nodata=-3000.0, order=[("time", "y", "x"), ("y", "x", "time")][k % 2], name=None, p=0.9, dtype="int16",
+                 lc=[[float(np.nextafter(0.5, 1)), 0.5 + 2.5e-8, 0.5], [0.5 + 1e-9, float(np.nextafter(0.5, 0)), 0.9]], lc_order=None)
+        a["pixel_cases"] = [dict(kind="optvplc", y=[float(v) for v in cube[yy][xx]], nodata=-3000.0, p=0.9, n=T, miss=0, lc=a["lc"][yy][xx])
+                            for yy in range(2) for xx in range(3)]
         acc.append(a)
     return cases, acc
 
